@@ -132,7 +132,7 @@ PROPS["C10"] = dict(
     assumptions=["the ledger sees instances of the instrumented element only; raw allocations made by the crate itself are watched by Miri, "
                  "LeakSanitizer / AddressSanitizer (quick and thorough) and valgrind (thorough)"],
     exhaustive_note="the fault grid per (container, all-success input) is enumerated completely; containers and inputs are a finite chosen list",
-    required=[("types_exercised", 55), ("fault_after_construction:malformed-element", 100), ("fault_after_construction:panic-in-element", 100),
+    required=[("types_exercised", 70), ("fault_after_construction:malformed-element", 100), ("fault_after_construction:panic-in-element", 100),
               ("fault_after_construction:exhausted", 100), ("fault_after_construction:panic-in-input", 100), ("fault_after_construction:mem-limit", 20),
               ("fault_after_construction:depth-limit", 5), ("success_runs", 100)],
     stages=lambda tier: [native(), miri(shards=32, values=3 if tier == "quick" else 30), asan(values=150 if tier == "quick" else 1500)] + ([valgrind(values=50)] if tier == "thorough" else []),
